@@ -83,11 +83,15 @@ func (s *singleWidthIndex) Unmarshal(r io.Reader) error {
 		return err
 	}
 
-	buf := make([]byte, dataLen)
-	if _, err := io.ReadFull(r, buf); err != nil {
+	// dataLen is untrusted: let the allocation follow the bytes actually present.
+	var buf bytes.Buffer
+	if _, err := io.CopyN(&buf, r, int64(dataLen)); err != nil {
+		if err == io.EOF {
+			return io.ErrUnexpectedEOF
+		}
 		return err
 	}
-	s.index = buf
+	s.index = buf.Bytes()
 	return nil
 }
 
